@@ -96,9 +96,15 @@ func (st *programState) runBalancesQuery() error {
 	// the store may answer with just the pairs of this query
 	merged := Balances{}
 	for account, fetchedBalances := range balances {
+		requestedAssets, requested := filteredQuery[account]
+		if !requested {
+			// a store may answer with more than it was asked (e.g. its whole content):
+			// only what was requested is used, so that the result does not depend on it
+			continue
+		}
 		mergedAccount := defaultMapGet(merged, account, func() AccountBalance { return AccountBalance{} })
 		for asset, amount := range fetchedBalances {
-			if amount == nil {
+			if amount == nil || !slices.Contains(requestedAssets, asset) {
 				continue
 			}
 			// copy: the cache is updated in place after each statement, while the
